@@ -17,6 +17,8 @@ if os.path.isdir(out):
     for f in os.listdir(out):
         if os.path.isfile(os.path.join(out, f)):
             shutil.copy(os.path.join(out, f), os.path.join(dst, f))
+        elif os.path.isdir(os.path.join(out, f)):  # a demonstration program in its own directory
+            shutil.copytree(os.path.join(out, f), os.path.join(dst, f), dirs_exist_ok=True)
 else:  # re-verification of a kept seed
     meta = json.load(open(os.path.join(dst, "meta.json")))
     _hist = meta.get("history", [])
